@@ -332,7 +332,7 @@ func (r *rig) buildController() {
 		setInformerWrap{r.setInf, r},
 		pvcInformerWrap{r.pvcInf, r},
 		r.revInf,
-		r.kube, r.pc)
+		r.kube, pcWrap{r.pc, r})
 	// same kind of queue, but with a rate limiter that does not make the harness wait: the controller's
 	// default combines a 5ms..1000s exponential per-item backoff with a 10 qps bucket shared by all items
 	r.ctrl.VerifQueue().ShutDown()
@@ -355,9 +355,11 @@ func putRig(r *rig) {
 
 // Cluster is one simulated cluster (API state + caches + one controller).
 type Cluster struct {
-	r        *rig
-	tracker  clienttesting.ObjectTracker
-	objReact clienttesting.ReactionFunc
+	r *rig
+	// WatchCacheReads counts GETs of the set that named a resourceVersion and were answered from the lagging copy
+	WatchCacheReads int
+	tracker         clienttesting.ObjectTracker
+	objReact        clienttesting.ReactionFunc
 
 	clock int64
 	rv    int64
